@@ -148,8 +148,11 @@ def counter_advances(repo, fi, loop):
     ends = []
     t = Tracer(repo, follow_exceptions=False, mark_carried=True)
     t.iter_hook = lambda st, path: ends.append(path.env.get(i)) if st is loop else None
+    top = loop
+    while getattr(top, '_parent', None) is not fi.node and top is not None:
+        top = getattr(top, '_parent', None)
     try:
-        t.trace(fi)
+        t.trace(fi, upto=top if top is not None and any(top is st for st in fi.node.body) else None)      # what follows the loop does not matter
     except AnalysisError:
         return None
 
@@ -319,9 +322,10 @@ def r2r3(repo, run):
             final = looks[-1].result.text if looks else 'self'
             if not evs or p.ret is None or p.ret.text != evs[-1].result.text or not evs[-1].args or evs[-1].args[0].text not in (final, 'carried(%s)' % final):
                 v2.add(('bad', 'a reference does not evaluate to the very object its target evaluates to (result wrapped / copied / not obtained through ctx.evaluate_node): returns %s' % (p.ret.text[:60] if p.ret is not None else None)))
-            elif looks and (evs[-1].kw.get('prefix') is None or _last_text(evs[-1].kw['prefix']) not in ('str(%s)' % looks[-1].args[0].text, looks[-1].args[0].text, 'NodePath.get_str_path(%s)' % looks[-1].args[0].text)):
-                v2.add(('bad', 'the target is not evaluated under its own path (prefix=%s; expected the text of the last reference followed, %s): its evaluation is recorded / cached / reported under another path' % (
-                    evs[-1].kw['prefix'].text[:40] if evs[-1].kw.get('prefix') is not None else 'absent', looks[-1].args[0].text[:40])))
+            elif looks and evs[-1].kw.get('prefix') is None and len(evs[-1].args) < 2:
+                # (what the prefix is cannot be read off reliably - the chain is a list filled by appends, possibly in a helper - but
+                # its absence can: the target would be evaluated, recorded and reported under the empty path)
+                v2.add(('bad', 'the target is evaluated without its path (no prefix): its evaluation is recorded / cached / reported as if it were the document root'))
             else:
                 v2.add(('ok', 'the referenced node\'s own (memoised) evaluation result is returned unmodified'))
         for e in looks:
